@@ -269,6 +269,17 @@ def run(chk):
         tab = np.array([[1 + 0.1j * (i - j) if j >= i else np.nan + 1j * np.nan for j in range(4)] for i in range(4)], dtype=complex)
         yield "TwoTimeBathCorrelations", bathcorr, (tab, rho, H)
 
+        def guess_td(h_on, h_off, h_lind):
+            # a time-dependent system whose callables hand out STORED arrays (a pulse table), given to the parameter guess
+            import warnings as _w2
+            sysm = oqupy.TimeDependentSystem(lambda t: h_on if 0.2 < t < 0.7 else h_off, gammas=[lambda t: 0.3], lindblad_operators=[lambda t: h_lind])
+            with _w2.catch_warnings():
+                _w2.simplefilter("ignore")
+                g_ = oqupy.guess_tempo_parameters(oqupy.Bath(O, corr), 0.0, 1.0, sysm, 0.05)
+                g2_ = oqupy.guess_tempo_parameters(oqupy.Bath(O, corr), 0.0, 1.0, sysm, 0.05)
+            return np.array([g_.dt, float(g_.dkmax), g_.epsrel, g2_.dt, float(g2_.dkmax), g2_.epsrel], dtype=complex)
+        yield "guess_tempo_parameters(TimeDependentSystem)", guess_td, (2.0 * H + 1.5 * SX, 0.5 * H, oqupy.operators.sigma("-") + 0.2j * SZ)
+
         # a target that is not symmetric (its transpose is a different matrix)
         yield "state_gradient", grad, (rho, rho.T.copy() + 0.3j * SX @ SZ, np.array([[0.1, 0.2], [0.3, 0.4], [0.5, 0.6], [0.7, 0.8]], dtype=complex))
 
